@@ -34,9 +34,10 @@ func C15(c *Ctx) {
 	r.Explanation = "(A7 coverage agreement) per module: every store section written at run time (handlers, ante, begin/end block) is also written by genesis import, and is read by genesis export or is a derived section that import rebuilds under the stated guard (the enterprise raised/accepted queues from the order status); " +
 		"(literal completeness) every keyed struct literal of a module type built on an import/export route names every field of that type, and each imported record field comes from the like-named genesis field; exported in-state counters are recomputed from the exported records (len, first element); " +
 		"(A5) the export caps of both record modules are the constant 20000 and are what the reverse iteration stops at; (A8) import drops no error of a state setter (incl. SetParams); (A2) import asserts escrow balance == holdings for the enterprise and stream accounts; (A5) the four modules are in the init/export genesis order and implement InitGenesis/ExportGenesis. Byte-identical round trip and behavioural equivalence are not decided."
-	r.Rules = []string{"A7.section-coverage", "A7.derived-queues", "A7.literal-completeness", "A7.import-fields", "A7.export-counters", "A7.export-fields", "A5.export-cap", "A8.import-errors", "A2.genesis-balance", "A5.genesis-order", "A12.decode-fresh", "A7.export-complete"}
+	r.Rules = []string{"A7.section-coverage", "A7.derived-queues", "A7.literal-completeness", "A7.import-fields", "A7.export-counters", "A7.export-fields", "A5.export-cap", "A8.import-errors", "A2.genesis-balance", "A5.genesis-order", "A12.decode-fresh", "A7.export-complete", "A7.import-accepts-export"}
 	decodeFresh(c, ir.Modules...)
 	exportComplete(c, ir.Modules...)
+	importRejects(c, ir.Modules...)
 	r.Trusted = []string{"module manager runs InitGenesis/ExportGenesis in the configured order", "protobuf JSON round trip of the genesis document"}
 	r.NotDecided = []string{"byte-identical re-export", "behavioural equivalence of the imported chain", "registered invariants holding after import (numeric)"}
 
@@ -140,6 +141,19 @@ func C15(c *Ctx) {
 								})
 						}, 1)
 						bad := ir.AfterReachesBackEdgeWithoutCut(f, pw, isQ, otherStatus)
+						if ir.EnclosingLoopHeader(f, pw) == nil {
+							// the per-order step is a helper of its own (the loop stands in its caller): no successful return of the
+							// helper is reached for such an order without the queue write
+							rets := ir.Returns(f)
+							if sr := w.SuccessReturns(f); len(sr) > 0 && ir.ErrIndex(f) >= 0 {
+								rets = sr
+							}
+							for _, ret := range rets {
+								if ir.ReachesFrom(f, pw.Block(), ir.InstrIndex(pw)+1, ret, ir.Cut{Edges: otherStatus, Barrier: isQ}) {
+									bad = append(bad, ret.Block())
+								}
+							}
+						}
 						r.Require(len(bad) == 0, "A7.derived-queues", "every|"+sec, pos(c, pw), "every imported order with Status == "+status+" gets its queue entry (no imported order of that status is skipped)", "the next iteration is reachable for such an order without the queue write")
 					}
 				}
